@@ -4,6 +4,7 @@ CONSTANTS MultipliedEndForNominal <- Off
           FirstAfterIgnoresEnd <- Off
           MaxTake = 6
           ShiftMovesStoredPoints <- Off
+          WinSpecs <- NoWins
           Shifts <- NoShifts
           Intervals <- ExactOnly
           Fmts <- F134
